@@ -589,13 +589,15 @@ func init() {
 		Jobs: func(tier string) []reg.Job {
 			js := withPolicies(tier, c14Jobs(tier), func(j reg.Job) bool { return j.Args["server"] != "os" })
 			// the close barrier at the narrowest seam: the packet manager alone, all programs of reads, writes and closes on two handles
-			n, bound, budget := 4, 3, 100
-			if tier == "thorough" {
-				n, bound, budget = 5, 3, 420
+			pmj := func(n, bound, budget int) reg.Job {
+				return reg.Job{Part: "C02/pm", Build: "instr-w2", Args: map[string]string{"alphabet": "RWrCc", "len": fmt.Sprint(n), "strategy": "db", "bound": fmt.Sprint(bound)}, Shards: 16, BudgetS: budget,
+					Label: fmt.Sprintf("packet manager alone (W=2): all programs <= %d over R,W,r,C,c, db%d", n, bound)}
 			}
-			pm := reg.Job{Part: "C02/pm", Build: "instr-w2", Args: map[string]string{"alphabet": "RWrCc", "len": fmt.Sprint(n), "strategy": "db", "bound": fmt.Sprint(bound)}, Shards: 16, BudgetS: budget,
-				Label: fmt.Sprintf("packet manager alone (W=2): all programs <= %d over R,W,r,C,c, db%d", n, bound)}
-			return append(js, withPolicies(tier, []reg.Job{pm}, func(reg.Job) bool { return true })...)
+			if tier == "thorough" {
+				return append(js, withPolicies(tier, []reg.Job{pmj(5, 3, 420)}, func(reg.Job) bool { return true })...)
+			}
+			// quick: length 3 to three deviations, length 4 to two
+			return append(js, withPolicies(tier, []reg.Job{pmj(3, 3, 100), pmj(4, 2, 100)}, func(reg.Job) bool { return true })...)
 		},
 	})
 }
